@@ -13,6 +13,7 @@ snapshots and arbitrary message sequences; there is no size bound anywhere.
 import CV.Proofs.PeerGo
 import CV.Proofs.PeerExport
 import CV.Proofs.PeerIdx
+import CV.Proofs.PeerClean
 set_option linter.unusedSectionVars false
 set_option linter.unusedSimpArgs false
 namespace CV.Peer
@@ -115,6 +116,103 @@ theorem exported_list_only_removes (c : Cat) (p : String) (names : List String)
     (he : (handleList c p names).err = none) : Sub (handleList c p names).cat c := by
   unfold handleList at he ⊢
   exact (pruneAll_spec p (keepNames names) (serviceList c p) { cat := c } ⟨rfl, rfl⟩ he).1
+
+/-! ### 2b. Checks no longer present are removed — on every node at once
+
+`handleUpdateService` collects the node checks to delete in a set keyed by (check id, NODE) so that a node check
+attached to several instances of a node is deregistered once; service checks are deregistered on the spot. The
+theorems below say that this clean-up loses nothing: whatever number of nodes loses whatever check ids in one
+update. No assumption on the prior catalog; the reach of the clean-up (it sees a stored check only through a
+stored instance of the same service whose (node, id) is still listed) is explicit in the statement — the checks
+outside that reach are the known findings `import:stale-node-check:*` / `import:stale-service-check:*`. -/
+
+/-- After a processed update, for every stored instance `x` of `(p, sn)` whose (node, service id) the snapshot still
+    lists, every check in the stored view of `x` (node checks of its node, checks of its id) whose check id that
+    received instance does not list is gone: no check is left under that (node, check id). Any number of nodes,
+    instances and checks in one update; the same check id on several nodes; no assumption on the catalog or on the
+    snapshot. (`snapInst` reads the normalised snapshot `newHealthSnapshot` builds.) -/
+theorem import_removes_absent_checks_raw (c : Cat) (p sn : String) (is : List Inst)
+    (he : (handleUpdate c p sn is).err = none) (hp : (handleUpdate c p sn is).panic = false)
+    (st : List CSN) (snap : Snap) (hst : csn c p sn = .ok st) (hsnap : mkSnap is = some snap) :
+    ∀ x ∈ st, ∀ ss, snapInst snap x.node.name x.svc.sid = some ss → ∀ k ∈ x.chks, (∀ d ∈ ss.chks, d.cid ≠ k.cid) →
+      ∀ y ∈ (handleUpdate c p sn is).cat.chks, ¬(y.peer = p ∧ y.node = k.node ∧ y.cid = k.cid) := by
+  intro x hx ss hss k hk hg
+  exact handleUpdate_removes_gone_checks he hp hst hsnap hx hss hk (fun ⟨e, he1, he2⟩ => hg e he1 he2)
+
+/-- The same, read through the received instance list (for a well-formed snapshot): if the stored instance `x` is
+    still listed as `i` and `i` does not list the id of a check `k` in the stored view of `x`, then after the update
+    the node of `x` carries no check with that id — for all nodes and all check ids of the update at once. -/
+theorem import_removes_absent_checks (c : Cat) (p sn : String) (is : List Inst) (ok : SnapOK sn is)
+    (he : (handleUpdate c p sn is).err = none) (hp : (handleUpdate c p sn is).panic = false)
+    (st : List CSN) (hst : csn c p sn = .ok st) :
+    ∀ x ∈ st, ∀ i ∈ is, i.node.name = x.node.name → i.svc.sid = x.svc.sid →
+      ∀ k ∈ x.chks, (∀ d ∈ i.chks, d.cid ≠ k.cid) →
+      ∀ y ∈ (handleUpdate c p sn is).cat.chks, ¬(y.peer = p ∧ y.node = x.node.name ∧ y.cid = k.cid) := by
+  intro x hx i hi e1 e2 k hk hg
+  obtain ⟨snap, hsnap, _, sis⟩ := mkSnap_is ok
+  obtain ⟨_, keys⟩ := mkSnap_keys hsnap
+  have hne : snapInst snap x.node.name x.svc.sid ≠ none := (keys _ _).mpr ⟨i, hi, e1, e2⟩
+  cases hss : snapInst snap x.node.name x.svc.sid with
+  | none => exact absurd hss hne
+  | some ss =>
+    obtain ⟨j, hj, f1, f2, f3⟩ := snapInst_some sis hss
+    have hij : j = i := pairwise_key_eq ok.keys hj hi (f1.trans e1.symm) (f2.trans e2.symm)
+    subst hij
+    have hkn : k.node = x.node.name := by
+      obtain ⟨_, _, _, _, _, e6, e7⟩ := (csn_ok hst).1 x hx
+      rw [e7] at hk
+      simp only [List.mem_append, List.mem_filter, chkOfNode, chkOfSvc, decide_eq_true_eq] at hk
+      rcases hk with hk | hk
+      · rw [hk.2.2.1, e6]
+      · rw [hk.2.2.1, e6]
+    have := import_removes_absent_checks_raw c p sn is he hp st snap hst hsnap x hx ss hss k hk (by rw [f3]; exact hg)
+    rw [hkn] at this
+    exact this
+
+/-- The de-duplication set of the clean-up names every (node, check id) pair exactly once, and holds exactly the
+    node checks the stored instances show and their received counterparts do not list: it neither drops a pair
+    (two nodes losing the same check id are two entries) nor repeats one (a node check seen through several
+    instances of its node is one entry). -/
+theorem cleanup_dedup_exact (p : String) (snap : Snap) (st : List CSN) :
+    (cleanup p snap st).nchks.Nodup ∧
+    ∀ n k, (n, k) ∈ (cleanup p snap st).nchks ↔
+      ∃ x ∈ st, ∃ ss, snapInst snap x.node.name x.svc.sid = some ss ∧
+        ∃ e ∈ x.chks, (¬ ∃ d ∈ ss.chks, d.cid = e.cid) ∧ e.sid = "" ∧ e.node = n ∧ e.cid = k := by
+  refine ⟨cleanup_nodup p snap st, fun n k => ?_⟩
+  rw [(cleanup_spec p snap st).2.1 (n, k)]
+  constructor
+  · rintro ⟨x, hx, ss, hss, e, he, hg, hs, heq⟩
+    simp only [Prod.mk.injEq] at heq
+    exact ⟨x, hx, ss, hss, e, he, hg, hs, heq.1.symm, heq.2.symm⟩
+  · rintro ⟨x, hx, ss, hss, e, he, hg, hs, e1, e2⟩
+    exact ⟨x, hx, ss, hss, e, he, hg, hs, by rw [e1, e2]⟩
+
+/-- stored: `web1` of `web` on `n1` and on `n2`, each node with the node check `nc1` and the service check `c1` —
+    the same ids on both nodes -/
+def exTwo : Cat :=
+  { nodes := [⟨"p1", "n1", "", "10.0.0.1"⟩, ⟨"p1", "n2", "", "10.0.0.2"⟩],
+    svcs := [⟨"p1", "n1", "web1", "web", 80⟩, ⟨"p1", "n2", "web1", "web", 80⟩],
+    chks := [⟨"p1", "n1", "nc1", "", "", "passing"⟩, ⟨"p1", "n1", "c1", "web1", "web", "passing"⟩,
+             ⟨"p1", "n2", "nc1", "", "", "passing"⟩, ⟨"p1", "n2", "c1", "web1", "web", "passing"⟩] }
+/-- received: both nodes and instances still there, `nc1` and `c1` gone from BOTH nodes at once -/
+def exTwoSnap : List Inst :=
+  [⟨⟨"n1", "", "10.0.0.1"⟩, ⟨"web1", "web", 80⟩, []⟩, ⟨⟨"n2", "", "10.0.0.2"⟩, ⟨"web1", "web", 80⟩, []⟩]
+
+-- non-vacuity: the update is processed, all four checks are in reach of the theorem, and they are gone
+example : (handleUpdate exTwo "p1" "web" exTwoSnap).err = none ∧ (handleUpdate exTwo "p1" "web" exTwoSnap).panic = false ∧
+    (handleUpdate exTwo "p1" "web" exTwoSnap).cat.chks = [] ∧
+    (cleanup "p1" ((mkSnap exTwoSnap).getD []) ((csn exTwo "p1" "web").toOption.getD [])).nchks = [("n1", "nc1"), ("n2", "nc1")] := by
+  decide
+
+/-- Why the node is part of the de-duplication key. With the set keyed by the check id alone (a Go
+    `map[CheckID]node`: a later node replaces an earlier one) the same update deregisters `nc1` on one node only:
+    the stale node check stays on `n1`, the imported view differs from the snapshot. -/
+theorem dedup_by_check_id_counterexample :
+    WF exTwo ∧ SnapOK "web" exTwoSnap ∧ (handleUpdateCidDedup exTwo "p1" "web" exTwoSnap).err = none ∧
+    (⟨"p1", "n1", "nc1", "", "", "passing"⟩ : Chk) ∈ (handleUpdateCidDedup exTwo "p1" "web" exTwoSnap).cat.chks ∧
+    (handleUpdate exTwo "p1" "web" exTwoSnap).cat.chks = [] := by
+  refine ⟨⟨by decide, by decide, by decide, by decide⟩,
+    ⟨by decide, by decide, by decide, by decide, by decide, by decide, by decide, by decide⟩, by decide, by decide, by decide⟩
 
 -- non-vacuity of section 2: a list update that unexports `web` from the catalog `exC` defined below is in
 -- section 4 (it needs the example catalog).
